@@ -270,6 +270,18 @@ func (p *Printer) variant(m *ua.Variant) {
 	p.w(" )")
 }
 
+// PrintVariantInput prints a value handed to ua.NewVariant: built-in type id and slice depth of its Go type, and its text.
+func PrintVariantInput(x interface{}) (base, depth int, text string) {
+	if x == nil {
+		return 0, 0, "n"
+	}
+	rv := reflect.ValueOf(x)
+	base, depth = VTag(rv.Type())
+	p := &Printer{}
+	p.variantValue(rv)
+	return base, depth, p.sb.String()
+}
+
 const zeroVariantText = "A( 0 0 0 mn 0 0 n )"
 
 func (p *Printer) dataValue(d *ua.DataValue) {
